@@ -2,6 +2,7 @@
    Extra hypothesis: FamSound src em (every emitted sub-rule is an aged copy of a source rule). *)
 From Coq Require Import List NArith Bool.
 From Engine Require Import Model FactsBasic FactsInv FactsOps FactsClose FactsFam FactsIdem FactsRun Run ExSemilattice.
+From Engine Require Import FactsStep FactsLeast FactsIso ExLeast.
 Import ListNotations.
 Local Open Scope N_scope.
 
@@ -43,3 +44,26 @@ Proof. exact semi_FamSound. Qed.
 Example C03_ex_idem :
   iter_counts 40 semi (hist_two ++ [EClose; EClose]) = [Some 9; Some 1].
 Proof. vm_compute. reflexivity. Qed.
+
+(* ---- added with the least-model characterisation (FactsLeast.v, FactsIso.v) ---- *)
+(* C03_history_indep_full as stated above is FALSE: it allows an arbitrary renaming g (e.g. one that
+   identifies two caller elements). *)
+Theorem C03_history_indep_full_refuted : ~ C03_history_indep_full.
+Proof. exact hist_indep_unconstrained_refuted. Qed.
+Print Assumptions C03_history_indep_full_refuted.
+
+(* History independence, proved: two histories that assert the same set of facts up to a bijective
+   renaming of the caller's elements (SameFacts: any order, duplicates, any placement of closes) close to
+   isomorphic models, by a map that extends the renaming.  Side conditions: FamErase (family shape),
+   WellTyped of the two results (typing facts the untyped model does not track; checkable on dumps), and
+   AtomsOnly: elements returned by define_ are not passed to later API calls -- this restriction is what
+   makes the theorem _partial. *)
+Theorem C03_history_indep_partial : forall P src A1 A2 s1 s2 f1 f2 c1 c2 r1 r2 g12 g21,
+  wf_rules (fp_rules P) -> FamOK src (fp_rules P) -> FamErase src (fp_rules P) ->
+  Reach P A1 s1 -> Reach P A2 s2 ->
+  exec_close_until f1 P c1 s1 = Some (r1, false) -> exec_close_until f2 P c2 s2 = Some (r2, false) ->
+  WellTyped P r1 -> WellTyped P r2 -> AtomsOnly A1 r1 -> AtomsOnly A2 r2 ->
+  SameFacts A1 A2 g12 g21 ->
+  exists h, (forall x, logged r1 x = false -> h x = g12 x) /\ iso_via h r1 r2.
+Proof. exact history_indep_close. Qed.
+Print Assumptions C03_history_indep_partial.
